@@ -48,7 +48,16 @@ def build_harness(race=False):
         # a scratch tree gets its own binary so that it cannot disturb concurrent runs against /repo
         key += "-" + hashlib.sha1(os.path.realpath(REPO).encode()).hexdigest()[:8]
     with _build_lock:
-        return _build_locked(key, race)
+        # several checks (or several instances of one check) may run at the same time on one machine: the build -- which
+        # rewrites harness/go.sum and the binary -- is serialised across processes too
+        import fcntl
+        os.makedirs(BUILD, exist_ok=True)
+        with open(os.path.join(BUILD, ".build.lock"), "w") as lk:
+            fcntl.flock(lk, fcntl.LOCK_EX)
+            try:
+                return _build_locked(key, race)
+            finally:
+                fcntl.flock(lk, fcntl.LOCK_UN)
 
 
 def _build_locked(key, race):
@@ -56,9 +65,15 @@ def _build_locked(key, race):
         return _built[key]
     os.makedirs(BUILD, exist_ok=True)
     gosum = os.path.join(HARNESS, "go.sum")
-    shutil.copyfile(os.path.join(REPO, "go.sum"), gosum)
+    want = open(os.path.join(REPO, "go.sum"), "rb").read()
+    if not os.path.exists(gosum) or open(gosum, "rb").read() != want:
+        tmp = gosum + ".tmp.%d" % os.getpid()
+        with open(tmp, "wb") as fh:
+            fh.write(want)
+        os.replace(tmp, gosum)          # never a half-written go.sum for a concurrent `go build` to read
     out = os.path.join(BUILD, key)
-    cmd = ["go", "build", "-tags", "verif", "-o", out]
+    outtmp = out + ".new.%d" % os.getpid()
+    cmd = ["go", "build", "-tags", "verif", "-o", outtmp]
     if os.path.realpath(REPO) != "/repo":
         # VERIF_REPO=<worktree>: same harness, alternative go.mod whose replace points at that tree
         alt = os.path.join(BUILD, key + ".mod")
@@ -72,7 +87,12 @@ def _build_locked(key, race):
     t0 = time.time()
     p = sh(cmd, cwd=HARNESS, env=goenv(), timeout=900, check=False)
     if p.returncode != 0:
+        try:
+            os.remove(outtmp)
+        except OSError:
+            pass
         raise Infra("harness build failed:\n" + p.stdout[-6000:])
+    os.replace(outtmp, out)             # a running instance keeps the binary it started; new ones get the new file
     _built[key] = out
     return out
 
